@@ -191,7 +191,10 @@ def check_phased_sort(prog, ctx):
     # phase variable: the one compared with -1 before phase_global
     guards = [n for n in walk_own(f.node) if isinstance(n, ast.If) and any(
         isinstance(c, ast.Call) and src(c.func).endswith(".phase_global") for s in n.body for c in ast.walk(s))]
-    ctx.need(len(guards) == 1 and isinstance(guards[0].test, ast.Compare), "resolve_combined_oddpos: guarded phase_global not found")
+    if not (len(guards) == 1 and isinstance(guards[0].test, ast.Compare)):
+        ctx.bad(rid, f, f.node, "no guarded phase_global",
+                "the accumulated phase must reach the result through `new.phase_global(inplace=True)` guarded by `phase == -1`, and nowhere else")
+        return
     phase = src(guards[0].test.left)
     ctx.check(src(guards[0].test) == f"{phase} == -1", rid, f, guards[0], src(guards[0].test), "a global flip is applied iff the accumulated phase is -1")
     pg = [c for s in guards[0].body for c in ast.walk(s) if isinstance(c, ast.Call) and src(c.func).endswith(".phase_global")][0]
